@@ -648,6 +648,9 @@ pub fn run(run: &mut Run) -> Result<(), String> {
                 // C01 checks one move list per state; C02 checks every outgoing edge (about 12x the
                 // work), so it takes every 10th king placement of the 4-man universe
                 plan.raws.push((Box::new(FourMen { kings: if prop == "C01" { None } else { Some(king_pairs_stride(10)) }, with_flags: false }), b(0, 0)));
+                if prop == "C01" {
+                    plan.raws.push((Box::new(NMen { kings: vec![(4, 60), (0, 10)], n: 3 }), b(0, 0)));
+                }
                 plan.raws.push((Box::new(Castle { extra: 2 }), b(0, 0)));
                 plan.raws.push((Box::new(EpUniverse::full()), b(1, 0)));
                 plan.raws.push((Box::new(Checks { n: 3 }), b(0, 0)));
